@@ -930,20 +930,25 @@ def replay(ctx, corr, path):
 
 MANIFEST = {
     'level_text': 'Lean 4 theorems over an interleaving model of the emitted instruction sequences (one step = one instruction of one thread; any '
-                  'number of threads, any per-thread list of operations with arbitrary update functions, all four widths, any schedule): '
-                  'C16_linearizable (the object always holds the sequential fold of the committed operations in the order of their successful '
-                  'lock cmpxchg / xchg; each operation commits at most once and in program order; every reported result is the sequential one), '
-                  'C16_no_lost_update and C16_final_value_commutative (terminated runs: the commits are a permutation of all operations; commuting '
-                  'updates give init + all operands), C16_cas_spec (a compare-exchange succeeds iff the object equals the expected value at the '
-                  'locked instruction, else stores the observed value into the expected-value object; only the low w bits compare), C16_lockfree '
-                  '(a failed attempt implies a commit of another thread since the last read), C16_exchange.  The sequences are tied to the compiler '
-                  'on every run by text equality with chibicc -S for every operator x type x storage and every stdatomic.h macro; the trusted '
+                  'number of threads, any per-thread list of operations - retry loops with arbitrary update functions, compare-exchanges, exchanges, '
+                  'loads, stores - all four widths, signed/unsigned/floating objects, any schedule): C16_linearizable (the object always holds the '
+                  'sequential fold of the committed operations in the order of their successful lock cmpxchg / xchg; each operation commits at most '
+                  'once and in program order; every reported result, including the previous value returned by atomic_fetch_* and exchange and the '
+                  'flag / written-back expected value of compare-exchange, is the sequential one), C16_no_lost_update, C16_final_value_commutative '
+                  'and C16_opassign_no_lost_update (terminated runs: the commits are a permutation of all operations; for += -= ++ -- *= &= |= ^= '
+                  'as chibicc computes them at every width and signedness the final value is the initial value with every single update applied), '
+                  'C16_cas_spec (a compare-exchange succeeds iff the object equals the expected value at the locked instruction, else stores the '
+                  'observed value into the expected-value object; only the low w bits compare, whatever the upper register bits), C16_lockfree '
+                  '(a failed attempt implies a commit of another thread since the last read) and C16_lockfree_progress (a thread in a retry loop '
+                  'executes at most 30 instructions without some operation committing), C16_exchange.  The sequences are tied to the compiler on '
+                  'every run by text equality with chibicc -S for every operator x type x storage class and every stdatomic.h macro; the trusted '
                   'atomicity of lock cmpxchg / xchg / aligned mov is validated by multi-thread stress, return-value uniqueness and forced-failure runs.',
     'level_note': 'Trusted: Lean kernel (axioms propext, Classical.choice, Quot.sound; audited each run); the CPU atomicity contract (Intel SDM vol. 3A '
                   '8.1/8.2) which is the model\'s step relation; the hand model of the instruction meanings, tied by assembly text equality '
-                  '(testing) and by the stress/ping-pong runs; the loop body new = old op val is an arbitrary function in the theorems (its value is '
-                  'C01/C02).  _Atomic qualifier propagation through declarators is tested on 42 declaration forms, not proved.  Memory-ordering '
-                  'effects of plain atomic_store/atomic_load beyond single-copy atomicity are outside the model.',
+                  '(testing) and by the stress/ping-pong runs; the loop body new = old op val is an arbitrary function in the general theorems and '
+                  'Op.fn (validated against gcc and the snapshot) in C16_opassign_no_lost_update.  _Atomic qualifier propagation through declarators '
+                  '(DESIGN C16_qualifier) is tested on 42 declaration forms and 5 storage classes, not proved.  Memory-ordering effects of plain '
+                  'atomic_store/atomic_load beyond single-copy atomicity are outside the model.',
     'technique': 'Lean 4 invariant proof over a small-step interleaving semantics (all schedules, all n); assembly-text correspondence with '
                  'chibicc -S; differential operator semantics against gcc; pthread stress with linearizability checks on final and returned values',
     'design_ref': 'DESIGN.md section 6, C16',
